@@ -693,6 +693,13 @@ def gen_unit_ast(R, names=('A', 'B', 'C', 'D'), p_annot=0.0):
         pre = flat(R.randint(1, 2))
         pre[-1].mult = None
         pre[-1].nxt = osym()
+        if R.chance(0.35):
+            # an earlier plain branch (closed, then a bond symbol or the next node) in front of the multiplied unit
+            tgt = R.choice(pre)
+            if tgt.mult is None:
+                tgt.branches.append([osym(), [node() for _ in range(R.randint(1, 2))], None, None])
+                if tgt.nxt is None and R.chance(0.5):
+                    tgt.nxt = R.choice(ORDERS)
         chain = pre + chain
     if R.chance(0.3):
         outer = node()
